@@ -8,6 +8,7 @@ package main
 import (
 	"go/types"
 	"math/big"
+	"strings"
 )
 
 type ival struct{ lo, hi *big.Int }
@@ -48,6 +49,26 @@ func (e *Env) varBounds() map[*Term]ival {
 		case "and":
 			for _, a := range p.Args {
 				atom(a)
+			}
+		case "not":
+			q := p.Args[0]
+			if (q.Op == "<" || q.Op == "<=") && q.Args[0].S == IntS {
+				a, b := q.Args[0], q.Args[1]
+				if q.Op == "<" { // not (a < b): b <= a
+					if b.Op == "const" {
+						upd(a, b.V, nil)
+					}
+					if a.Op == "const" {
+						upd(b, nil, a.V)
+					}
+				} else { // not (a <= b): b < a
+					if b.Op == "const" {
+						upd(a, new(big.Int).Add(b.V, one), nil)
+					}
+					if a.Op == "const" {
+						upd(b, nil, new(big.Int).Sub(a.V, one))
+					}
+				}
 			}
 		case "<=":
 			a, b := p.Args[0], p.Args[1]
@@ -102,6 +123,15 @@ func (e *Env) termBounds(t *Term, vb map[*Term]ival, memo map[*Term]*ival, depth
 	var known *ival
 	if b, ok := vb[t]; ok && b.lo != nil && b.hi != nil {
 		known = &ival{b.lo, b.hi}
+	} else if t.Op == "var" && (strings.Contains(t.Name, ".len!") || strings.Contains(t.Name, ".cap!")) {
+		lo, hi := big.NewInt(0), new(big.Int).SetUint64(1<<63-1)
+		if ok && b.lo != nil && b.lo.Sign() > 0 {
+			lo = b.lo
+		}
+		if ok && b.hi != nil {
+			hi = b.hi
+		}
+		known = &ival{lo, hi}
 	}
 	var st *ival
 	sub := func(i int) *ival { return e.termBounds(t.Args[i], vb, memo, depth+1) }
@@ -149,6 +179,17 @@ func (e *Env) termBounds(t *Term, vb map[*Term]ival, memo map[*Term]*ival, depth
 				st = &ival{lo, hi}
 			}
 		}
+	case "bv2nat":
+		a := t.Args[0]
+		hi := new(big.Int).Sub(new(big.Int).Lsh(big.NewInt(1), uint(a.S.W)), big.NewInt(1))
+		if a.Op == "bvand" {
+			for _, m := range a.Args {
+				if m.Op == "const" && m.V.Cmp(hi) < 0 {
+					hi = m.V
+				}
+			}
+		}
+		st = &ival{big.NewInt(0), hi}
 	case "ite":
 		a, b := e.termBounds(t.Args[1], vb, memo, depth+1), e.termBounds(t.Args[2], vb, memo, depth+1)
 		if a != nil && b != nil {
